@@ -261,8 +261,17 @@ def run_model(tag, progs):
     per = 150
     for i in range(0, len(progs), per):
         body = CASE_HEAD + "".join(f"Eval vm_compute in (enc (import_prog TermAlg {cprog(p)}), wfb {cprog(p)}).\n" for p in progs[i:i + per])
-        files.append((f"C04_{tag}_{i // per}", body))
-    outs = coq_eval_many(files, timeout=900)
+        files.append((f"C04_{tag}_p{os.getpid()}_{i // per}", body))      # per-process names: concurrent checks must not share case files
+    try:
+        outs = coq_eval_many(files, timeout=900)
+    finally:
+        import glob
+        for name, _ in files:
+            for fn in glob.glob(os.path.join(VERIF, "coq", "Cases", name + ".*")) + glob.glob(os.path.join(VERIF, "coq", "Cases", "." + name + ".aux")):
+                try:
+                    os.remove(fn)
+                except OSError:
+                    pass
     res = []
     for name, _ in files:
         for v in parse_evals(outs[name]):
